@@ -126,7 +126,8 @@ func GeneratePBBinaryMessage(w io.Writer, m protoreflect.ProtoMessage) error {
 	if m == nil {
 		return fmt.Errorf("module is nil")
 	}
-	bytes, err := proto.Marshal(m)
+	// map entries in a fixed order: the same model gives the same bytes
+	bytes, err := proto.MarshalOptions{Deterministic: true}.Marshal(m)
 	if err != nil {
 		return err
 	}
